@@ -50,6 +50,9 @@ def norm_result(r):
     return o
 
 
+WORK = {"mkdirat", "mknodat", "symlinkat", "linkat", "unlinkat", "renameat2", "renameat"}
+
+
 def main(tier_):
     t0 = time.time()
     quick = tier_ == "quick"
@@ -98,8 +101,11 @@ def main(tier_):
                     chosen = rnd.sample(sites, min(3, len(sites)))
             else:
                 chosen = sites
+            if quick:
+                # the call that does the operation's work (the one mutating *at syscall) always gets the whole catalogue
+                chosen = list(dict.fromkeys(chosen + [x for x in sites if x[1] in WORK and x[2] == "tree"]))
             for (i, nr, cls) in chosen:
-                errs = rnd.sample(CATALOGUE, 2) if quick else CATALOGUE
+                errs = rnd.sample(CATALOGUE, 2) if quick and not (nr in WORK and cls == "tree") else CATALOGUE
                 for en in errs:
                     c = copy.deepcopy(bc)
                     c["id"] = "flt|%s|%s|%s|c%d|i%d|%s|%d" % (bc["meta"]["scenario"], bc["meta"]["feat"], "cold" if bc.get("cold") else "warm", j, i, nr, en)
@@ -112,7 +118,7 @@ def main(tier_):
                 # 5000 = "persistent": the property fixes no bound, so only a sequence no sane bound survives must end in a safety violation
                 for n in ((2, 5000) if quick else (1, 2, 15, 16, 17, 40, 5000)):
                     c = copy.deepcopy(bc)
-                    c["id"] = "eagain|%s|%s|c%d|n%d" % (bc["meta"]["scenario"], bc["meta"]["feat"], j, n)
+                    c["id"] = "eagain|%s|%s|%s|c%d|n%d" % (bc["meta"]["scenario"], bc["meta"]["feat"], "cold" if bc.get("cold") else "warm", j, n)
                     c["raw"] = False
                     c["calls"] = bc["calls"][:j + 1]
                     c["faults"] = [dict(call=j, nr="openat2", errno=11, count=n)]
@@ -139,6 +145,11 @@ def main(tier_):
         bc, br = base_by_id[m["base"]]
         j = m["call"]
         fired = any(e.get("ev") == "sys" and "injected" in e for e in r.get("events", []))
+        if m["kind"] == "eagain" and any(e.get("ev") == "sys" and e.get("nr") == "openat2" and e.get("ret") == -11 and "injected" not in e for e in r.get("events", [])):
+            # the kernel itself answered EAGAIN as well (a rename or mount somewhere on the machine): the number of
+            # consecutive EAGAINs is not the injected one -- the run says nothing about the retry rule
+            stats["eagain_runs_with_natural_eagain"] += 1
+            return None
         outcome, errkind, res_j = "err", "", None
         status = r.get("status")
         rs = (r.get("out") or [{}])[0].get("results") or []
@@ -269,7 +280,7 @@ def main(tier_):
                rule="a case = (scenario call, feature set, cold/warm, fault: single (index i of the real injectable-syscall sequence, errno) | n x EAGAIN on openat2 | EMFILE on every fd-creating call from index i); "
                     "non-trivial = the fault actually fired; distinct = distinct (operation, fault kind, syscall, errno, outcome class)",
                exhaustive=not quick, single_fault_space=space, fired=stats["fired"], not_fired=stats["not_fired"],
-               outcomes={k: n for k, n in stats.items() if k.startswith("outcome_")}, kernel_model_mismatches=len(kmm),
+               outcomes={k: n for k, n in stats.items() if k.startswith("outcome_")}, eagain_runs_with_natural_eagain=stats["eagain_runs_with_natural_eagain"], kernel_model_mismatches=len(kmm),
                eagain_model_conformance=dict(validated=econf["validated"], accepted=econf["accepted"], drift=econf["drift"][:5], retry_bound_observed=sorted(bounds - {0})), build_s=round(build_s, 1))
     write_evidence("C10", tier_, "model_checking", cov, ASSUME, wall, len(v.violations))
     return rc
